@@ -194,6 +194,13 @@ def pre_check(check):
     })
     if d.get("type_errors"):
         check.obligations.append(("C09.translator-typecheck", False, "; ".join(d["type_errors"][:5])))
+    if check.tier == "thorough":
+        # the translator on its synthetic module (fields named ok… / bad… with known verdicts)
+        r = _run(["go", "test", "-count=1", "."], cwd=LOCKS, env=core.GOENV)
+        check.obligations.append(("C09.translator-selftest (harness/locks/testdata)", r.returncode == 0, r.stdout[-300:]))
+        if r.returncode != 0:
+            p = check.write_replay("translator-selftest", "# obligation: the C09 translator fails its own synthetic test\n# " + r.stdout[-1500:].replace("\n", "\n# ") + "\n")
+            check.violations.append((p, "no-failing-input-found"))
     # --- the discipline theorem on the regenerated table
     same = os.path.exists(COMMITTED) and filecmp.cmp(d["_lean"], COMMITTED, shallow=False)
     if same:
